@@ -79,6 +79,8 @@ pub fn worker(property: &str, tier: &str, shard: usize, nshards: usize, cases: C
         writeln!(out, "{}", line).ok();
     }
     let _ = property;
+    let (f, w, pf) = crate::enet::fence_stats();
+    writeln!(out, "{}", json!({"bye": true, "fences": f, "fence_waits": w, "pin_failed": pf})).ok();
     out.flush().ok();
     std::process::exit(0)
 }
@@ -112,6 +114,7 @@ pub fn run_sharded(rep: &mut Report, property: &str, tier: &str, cases: CasesFn,
     }
     let mut agg = Aggregate { executions: 0, classes: Default::default(), samples: vec![], isolated_workers: 0, stats_sum: Default::default(), stats_max: Default::default() };
     let mut seen = vec![false; all.len()];
+    let (mut fences, mut fence_waits, mut pin_failed) = (0u64, 0u64, false);
     let handles: Vec<_> = children
         .into_iter()
         .map(|mut c| {
@@ -143,6 +146,12 @@ pub fn run_sharded(rep: &mut Report, property: &str, tier: &str, cases: CasesFn,
                 }
                 continue;
             }
+            if v["bye"].as_bool() == Some(true) {
+                fences += v["fences"].as_u64().unwrap_or(0);
+                fence_waits += v["fence_waits"].as_u64().unwrap_or(0);
+                pin_failed |= v["pin_failed"].as_bool().unwrap_or(false);
+                continue;
+            }
             let idx = v["idx"].as_u64().unwrap_or(u64::MAX) as usize;
             if idx < seen.len() {
                 seen[idx] = true;
@@ -171,6 +180,12 @@ pub fn run_sharded(rep: &mut Report, property: &str, tier: &str, cases: CasesFn,
             }
         }
     }
+    rep.cov("loopback_fences", fences);
+    rep.cov("loopback_fences_that_waited_for_deferred_delivery", fence_waits);
+    if pin_failed {
+        rep.assume("CPU pinning was refused by the kernel: the loopback fence then relies on the scheduler not migrating the worker between a send and its fence");
+    }
+    rep.assume("kernel loopback delivery is ordered by a per-round FIFO fence on a pinned CPU and pending TCP ACKs are flushed at every fence (DESIGN.md section 3); no wall-clock value enters a verdict");
     let missing = seen.iter().filter(|x| !**x).count();
     if missing > 0 {
         rep.machinery_error(format!("{missing} of {} cases produced no result", all.len()));
